@@ -141,6 +141,25 @@ func deviations() []deviation {
 		func(b *types.WorkObject, v uint64) { b.WorkObjectHeader().SetTime(v) },
 		func(v uint64) uint64 { return v + 3600 }))
 
+	// boundary values of the 64-bit time field: far-future values must be refused whatever their bit pattern
+	// (2^63 and above are negative when read as a signed number)
+	for _, bv := range []struct {
+		name string
+		f    func(v uint64) uint64
+	}{
+		{"+1y", func(v uint64) uint64 { return v + 365*24*3600 }},
+		{"=MaxInt64", func(uint64) uint64 { return 1<<63 - 1 }},
+		{"=2^63", func(uint64) uint64 { return 1 << 63 }},
+		{"=2^63+now", func(v uint64) uint64 { return 1<<63 + v }},
+		{"=MaxUint64-1", func(uint64) uint64 { return ^uint64(0) - 1 }},
+		{"=MaxUint64", func(uint64) uint64 { return ^uint64(0) }},
+	} {
+		add("time", bv.name, common.ZONE_CTX, u64Step(
+			func(b *types.WorkObject) uint64 { return b.Time() },
+			func(b *types.WorkObject, v uint64) { b.WorkObjectHeader().SetTime(v) },
+			bv.f))
+	}
+
 	// ---- zone-derived fields (every block is verified in zone context)
 	z := common.ZONE_CTX
 	getDiff := func(b *types.WorkObject) *big.Int { return b.Difficulty() }
@@ -163,6 +182,8 @@ func deviations() []deviation {
 		return u64Step(getGL, setGL, dec)(e, b)
 	})
 	add("gasLimit", "x2", z, u64Step(getGL, setGL, func(v uint64) uint64 { return v * 2 }))
+	add("gasLimit", "=2^63", z, u64Step(getGL, setGL, func(uint64) uint64 { return 1 << 63 }))
+	add("gasLimit", "=MaxUint64", z, u64Step(getGL, setGL, func(uint64) uint64 { return ^uint64(0) }))
 	add("gasLimit", "parent*(1+2/1024)", z, func(e *devEnv, b *types.WorkObject) (string, string, bool) {
 		// just outside the classic +-1/1024 band around the parent's limit
 		p := e.par[z]
@@ -180,6 +201,8 @@ func deviations() []deviation {
 	getSL := func(b *types.WorkObject) uint64 { return b.StateLimit() }
 	setSL := func(b *types.WorkObject, v uint64) { b.Header().SetStateLimit(v) }
 	add("stateLimit", "+1", z, u64Step(getSL, setSL, inc))
+	add("stateLimit", "=2^63", z, u64Step(getSL, setSL, func(uint64) uint64 { return 1 << 63 }))
+	add("stateLimit", "=MaxUint64", z, u64Step(getSL, setSL, func(uint64) uint64 { return ^uint64(0) }))
 	add("stateLimit", "-1", z, func(e *devEnv, b *types.WorkObject) (string, string, bool) {
 		if b.StateLimit() == 0 || b.StateLimit()-1 < b.StateUsed() {
 			return "", "", false
